@@ -17,6 +17,11 @@ CLAIMED = {
          "algebra; (Ad_X y)^ M(X) = M(X) y^ for every group (all valid X, all y); Ad homomorphism / inverse for SO2, SE2, Rn, SO3*, SE3*; "
          "k×k shapes enforced by the types. Ad_exp = exp(ad) and SE23 Ad homomorphism: numeric search only (named in evidence).",
          "DESIGN.md §2 C04", TECH_T),
+ "C13": ("proof", "Lean 4 theorems over the control_allocation program regenerated from rdd2.derive_control_allocation(): for ALL demands and "
+         "all constants every motor force is in [0,F_max] and omega = sqrt(Fp/Ct) with non-negative radicand; a jointly achievable demand is "
+         "reproduced exactly (boundary cases included); if the moment spread fits in F_max the output is the moment part plus one common shift, "
+         "that shift is the least one, and the rotor-geometry map returns exactly the range-limited moment. Peeling lemmas are rfl.",
+         "DESIGN.md §2 C13", TECH_T),
 }
 checks = []
 for pid, (cat, text, ref, tech) in CLAIMED.items():
